@@ -494,6 +494,54 @@ fn run_one(payload: &str) -> String {
                 }
             }
             outs
+        } else if kv(cfg, "duo").parse::<usize>().unwrap_or(0) > 0 {
+            // C15 (duo=<rounds>;loc2=<locale>): TWO cold concurrent bundles of different locales make their first
+            // requests at the same instant on two threads, again and again with fresh bundles; every round must give
+            // what each bundle gives alone (state shared between bundles - process-wide caches - must not leak)
+            let rounds: usize = kv(cfg, "duo").parse().unwrap_or(0);
+            let chain2: Vec<LanguageIdentifier> = match kv(cfg, "loc2").split('+').map(|l| l.parse::<LanguageIdentifier>()).collect() {
+                Ok(c) => c,
+                Err(_) => return "bad-case".into(),
+            };
+            let fresh = |c: &Vec<LanguageIdentifier>| {
+                let mut x: RawBundle<FluentResource, intl_memoizer::concurrent::IntlLangMemoizer> = RawBundle::new_concurrent(c.clone());
+                let _ = configure(&mut x, cfg, ress, fns);
+                x
+            };
+            let ref1: Vec<String> = reqs.iter().map(|r| answer(&b, r, None)).collect();
+            let b2 = fresh(&chain2);
+            let ref2: Vec<String> = reqs.iter().map(|r| answer(&b2, r, None)).collect();
+            let mut bad: Option<String> = None;
+            for round in 0..rounds {
+                let (x1, x2) = (fresh(&chain), fresh(&chain2));
+                let go = std::sync::atomic::AtomicUsize::new(0);
+                let run = |x: &RawBundle<FluentResource, intl_memoizer::concurrent::IntlLangMemoizer>| -> Vec<String> {
+                    go.fetch_add(1, std::sync::atomic::Ordering::SeqCst);
+                    while go.load(std::sync::atomic::Ordering::SeqCst) < 2 {
+                        std::hint::spin_loop();
+                    }
+                    reqs.iter().map(|r| answer(x, r, None)).collect()
+                };
+                let (o1, o2) = std::thread::scope(|sc| {
+                    let h1 = sc.spawn(|| run(&x1));
+                    let h2 = sc.spawn(|| run(&x2));
+                    (h1.join().unwrap_or_else(|_| vec!["PANIC thread".to_string()]), h2.join().unwrap_or_else(|_| vec!["PANIC thread".to_string()]))
+                });
+                if o1 != ref1 || o2 != ref2 {
+                    let (which, o, r) = if o1 != ref1 { (kv(cfg, "loc"), &o1, &ref1) } else { (kv(cfg, "loc2"), &o2, &ref2) };
+                    let i = (0..r.len()).find(|i| o.get(*i) != r.get(*i)).unwrap_or(0);
+                    bad = Some(format!(
+                        " DUO-DISAGREE(round {} bundle {} request {}: alone {} / next to the other bundle {})",
+                        round, which, i, r.get(i).cloned().unwrap_or_default(), o.get(i).cloned().unwrap_or_default()
+                    ).replace(';', ","));
+                    break;
+                }
+            }
+            let mut outs = ref1;
+            if let (Some(m), Some(first)) = (bad, outs.first_mut()) {
+                first.push_str(&m);
+            }
+            outs
         } else {
             let mut shared: Option<Vec<FluentError>> = if kv(cfg, "ev") == "shared" { Some(vec![]) } else { None };
             reqs.iter().map(|r| answer(&b, r, shared.as_mut())).collect()
